@@ -42,6 +42,16 @@ pub struct Ptr<'tcx> {
     /// Some((start, len)): the pointee is the slice of elements [start, start+len) of the array the segments designate
     pub win: Option<(usize, usize)>,
 }
+impl<'tcx> V<'tcx> {
+    /// the cell a reference / cursor points into
+    pub fn as_ptr_cell(&self) -> Option<usize> {
+        match self {
+            V::Ref(p) => Some(p.cell),
+            V::Iter { ptr, .. } => Some(ptr.cell),
+            _ => None,
+        }
+    }
+}
 pub fn ptr0<'tcx>(cell: usize) -> Ptr<'tcx> {
     Ptr { cell, segs: vec![Seg { view: None, path: vec![] }], win: None }
 }
@@ -614,6 +624,19 @@ impl<'tcx> Cx<'tcx> {
             if let Some(v) = self.destructure_const(val, ty, 0) {
                 return Ok(v);
             }
+            // a reference to such a table (`TABLE.iter()`, `&TABLE[..]`): a cell holding the structured value
+            if let (ty::Ref(_, inner, _), mir::ConstValue::Scalar(rustc_middle::mir::interpret::Scalar::Ptr(ptr, _))) = (ty.kind(), val) {
+                if matches!(inner.kind(), ty::Array(..) | ty::Tuple(_) | ty::Adt(..)) {
+                    let (prov, offset) = ptr.prov_and_relative_offset();
+                    if let rustc_middle::mir::interpret::GlobalAlloc::Memory(_) = self.tcx.global_alloc(prov.alloc_id()) {
+                        let inner_val = mir::ConstValue::Indirect { alloc_id: prov.alloc_id(), offset };
+                        if let Some(v) = self.destructure_const(inner_val, *inner, 0) {
+                            st.cells.push(Cell { ty: *inner, v, name: None });
+                            return Ok(V::Ref(ptr0(st.cells.len() - 1)));
+                        }
+                    }
+                }
+            }
         }
         let shown = match if evaluable { cc.eval(self.tcx, self.tenv, c.span) } else { Err(rustc_middle::mir::interpret::ErrorHandled::TooGeneric(c.span)) } {
             Ok(val) => {
@@ -1128,6 +1151,135 @@ impl<'tcx> Cx<'tcx> {
         }
     }
 
+    /// structural equality of two abstract values
+    fn veq(a: &V<'tcx>, b: &V<'tcx>) -> bool {
+        match (a, b) {
+            (V::Sym(x), V::Sym(y)) => x == y,
+            (V::Int(x), V::Int(y)) => x == y,
+            (V::Agg(x), V::Agg(y)) => x.len() == y.len() && x.iter().zip(y).all(|(p, q)| Self::veq(p, q)),
+            (V::Enum(k, x), V::Enum(l, y)) => k == l && x.len() == y.len() && x.iter().zip(y).all(|(p, q)| Self::veq(p, q)),
+            (V::Ref(p), V::Ref(q)) => Self::peq(p, q),
+            (V::Fn(x), V::Fn(y)) => x == y,
+            (V::Str(x), V::Str(y)) => x == y,
+            (V::Iter { ptr: p, front: f, back: b_, by_value: v }, V::Iter { ptr: q, front: g, back: c, by_value: w }) => Self::peq(p, q) && f == g && b_ == c && v == w,
+            (V::Undef, V::Undef) => true,
+            _ => false,
+        }
+    }
+    fn peq(p: &Ptr<'tcx>, q: &Ptr<'tcx>) -> bool {
+        p.cell == q.cell && p.win == q.win && p.segs.len() == q.segs.len() && p.segs.iter().zip(&q.segs).all(|(a, b)| a.view == b.view && a.path == b.path)
+    }
+    /// `if c { a } else { b }` as one value, when the two have the same shape and differ only in scalar leaves
+    fn merge_v(&self, c: T, a: &V<'tcx>, b: &V<'tcx>, limit: usize) -> Option<V<'tcx>> {
+        if Self::veq(a, b) {
+            return Some(a.clone());
+        }
+        if a.as_ptr_cell().map(|x| x >= limit).unwrap_or(false) || b.as_ptr_cell().map(|x| x >= limit).unwrap_or(false) {
+            return None;
+        }
+        match (a, b) {
+            (V::Sym(_) | V::Int(_), V::Sym(_) | V::Int(_)) => {
+                let st = State { cells: vec![], frames: vec![], trace: vec![], decided: vec![], symcells: vec![], excluded: vec![] };
+                Some(V::Sym(app("ite", vec![c, self.to_term(&st, a), self.to_term(&st, b)])))
+            }
+            (V::Agg(x), V::Agg(y)) if x.len() == y.len() => {
+                let mut out = vec![];
+                for (p, q) in x.iter().zip(y) {
+                    out.push(self.merge_v(c, p, q, limit)?);
+                }
+                Some(V::Agg(out))
+            }
+            (V::Enum(k, x), V::Enum(l, y)) if k == l && x.len() == y.len() => {
+                let mut out = vec![];
+                for (p, q) in x.iter().zip(y) {
+                    out.push(self.merge_v(c, p, q, limit)?);
+                }
+                Some(V::Enum(*k, out))
+            }
+            _ => None,
+        }
+    }
+    /// Is `t` an exact (in)equality test of two scalars (the guard of a fast path), possibly negated?
+    fn is_eq_test(&self, t: T) -> bool {
+        match terms::get(t) {
+            terms::Term::App(op, a) if op == "not" && a.len() == 1 => self.is_eq_test(a[0]),
+            terms::Term::App(op, a) if (op == "eq" || op == "ne") && a.len() == 2 => true,
+            _ => false,
+        }
+    }
+    /// If-conversion of a pure diamond inside a callee: both arms of an equality-guarded branch run to the callee's return
+    /// without forking, panicking or having effects, and what they return / leave in memory differs only in scalar leaves.
+    /// The caller then continues ONCE with `ite(c, then, else)` leaves (the rule layer resolves an ite whose arms agree under
+    /// its condition - a correct fast path - and keeps a wrong one visible).  Returns true when the merge was done.
+    fn try_merge(&self, st: &mut State<'tcx>, t: T, bb_then: BasicBlock, bb_else: BasicBlock) -> bool {
+        if st.frames.len() < 2 || !self.is_eq_test(t) {
+            return false;
+        }
+        let top = st.frames.last().unwrap().clone();
+        let Some((dest, Some(target))) = top.ret_to.clone() else { return false };
+        // predicates (`a == b && c == d`) keep their short-circuit structure: the comparator rules read it
+        if self.subst(&top, top.body.local_decls[mir::RETURN_PLACE].ty).is_bool() {
+            return false;
+        }
+        let ncells = st.cells.len();
+        let saved = { let s = self.stats.borrow(); (s.leaves, s.steps) };
+        let mut run_arm = |bb: BasicBlock, val: u128| -> Option<(V<'tcx>, State<'tcx>)> {
+            let mut sub = st.clone();
+            sub.frames.clear();
+            let mut f = top.clone();
+            f.ret_to = None;
+            f.bb = bb;
+            sub.frames.push(f);
+            sub.decided.push((t, val));
+            if let Some((x, c, pol)) = self.discr_fact(t) {
+                if pol == (val == 1) { sub.decided.push((x, c)); } else { sub.excluded.push((x, c)); }
+            }
+            match self.run_from(&mut sub, 0) {
+                Outcome::Ret(v, _, s2) => Some((v, s2)),
+                _ => None,
+            }
+        };
+        let a = run_arm(bb_then, 1);
+        let b = if a.is_some() { run_arm(bb_else, 0) } else { None };
+        let ok = (|| -> Option<(V<'tcx>, Vec<Cell<'tcx>>)> {
+            let (v1, s1) = a.as_ref()?;
+            let (v2, s2) = b.as_ref()?;
+            if s1.trace.len() != st.trace.len() || s2.trace.len() != st.trace.len() {
+                return None;
+            }
+            let rv = self.merge_v(t, v1, v2, ncells)?;
+            let mut cells = Vec::with_capacity(ncells);
+            for i in 0..ncells {
+                // the callee's own locals are dead once it has returned
+                let m = if top.locals.contains(&i) { st.cells[i].v.clone() } else { self.merge_v(t, &s1.cells[i].v, &s2.cells[i].v, ncells)? };
+                cells.push(Cell { ty: st.cells[i].ty, v: m, name: st.cells[i].name.clone() });
+            }
+            Some((rv, cells))
+        })();
+        match ok {
+            Some((rv, cells)) => {
+                {
+                    let mut s = self.stats.borrow_mut();
+                    s.leaves = saved.0;
+                }
+                st.cells = cells;
+                st.frames.pop();
+                if self.write(st, &dest, rv).is_err() {
+                    return false;
+                }
+                self.goto(st, target);
+                push_uniq(&mut self.stats.borrow_mut().models, "mirsum::if-conversion".to_string());
+                true
+            }
+            None => {
+                let mut s = self.stats.borrow_mut();
+                s.leaves = saved.0;
+                let _ = saved.1;
+                false
+            }
+        }
+    }
+
     fn bool_term(&self, t: T) -> T {
         t
     }
@@ -1347,6 +1499,9 @@ impl<'tcx> Cx<'tcx> {
                                         self.goto(&mut st, if truth { ow } else { arms[0].1 });
                                         continue;
                                     }
+                                }
+                                if self.try_merge(&mut st, t, ow, arms[0].1) {
+                                    continue;
                                 }
                                 let mut s_then = st.clone();
                                 if let Some((x, c, pol)) = fact {
@@ -1707,6 +1862,48 @@ impl<'tcx> Cx<'tcx> {
                 }
             }
         }
+        // `&s[a..b]`, `&s[a..]`, `&s[..b]`, `&s[..]` on an array or a slice window with concrete bounds: a sub-window
+        if (name == "core::ops::index::Index::index" || name == "core::ops::index::IndexMut::index_mut") && argv.len() == 2 {
+            if let (V::Ref(p), Some(ity)) = (&argv[0], argtys.get(1)) {
+                let recv = match p.win {
+                    Some(w) => Some(w),
+                    None => match self.ptr_ty(st, p).ok().map(|t| t.kind().clone()) {
+                        Some(ty::Array(_, n)) => n.try_to_target_usize(self.tcx).map(|n| (0usize, n as usize)),
+                        _ => None,
+                    },
+                };
+                if let (Some((start, len)), ty::Adt(d, _)) = (recv, ity.kind()) {
+                    let nm = self.tcx.def_path_str(d.did());
+                    let ints: Option<Vec<usize>> = match &argv[1] {
+                        V::Agg(fs) => fs.iter().map(|f| if let V::Int(i) = f { Some(*i as usize) } else { None }).collect(),
+                        _ => None,
+                    };
+                    if let Some(ints) = ints {
+                        let ab = if nm.ends_with("ops::Range") && ints.len() == 2 {
+                            Some((ints[0], ints[1]))
+                        } else if nm.ends_with("ops::RangeFrom") && ints.len() == 1 {
+                            Some((ints[0], len))
+                        } else if nm.ends_with("ops::RangeTo") && ints.len() == 1 {
+                            Some((0, ints[0]))
+                        } else if nm.ends_with("ops::RangeToInclusive") && ints.len() == 1 {
+                            Some((0, ints[0] + 1))
+                        } else if nm.ends_with("ops::RangeFull") {
+                            Some((0, len))
+                        } else {
+                            None
+                        };
+                        if let Some((a, b)) = ab {
+                            if a > b || b > len {
+                                return Err("PANIC:slice index out of range".into());
+                            }
+                            let mut q = p.clone();
+                            q.win = Some((start + a, b - a));
+                            return Ok(Some(V::Ref(q)));
+                        }
+                    }
+                }
+            }
+        }
         // by-value array iteration
         if name == "core::iter::traits::collect::IntoIterator::into_iter" {
             if let (Some(t0), Some(v0)) = (argtys.first(), argv.first()) {
@@ -1803,10 +2000,18 @@ impl<'tcx> Cx<'tcx> {
             let (a, b) = (self.sc(st, &argv[0])?, self.sc(st, &argv[1])?);
             push_uniq(&mut self.stats.borrow_mut().models, name.clone());
             let t = app("cmp", vec![a, b]);
+            if let Some(&(_, k)) = st.decided.iter().find(|(d, _)| *d == t) {
+                // the same comparison was already settled on this path
+                let k = k as u32;
+                let r = if k == 3 { V::Enum(0, vec![]) } else { V::Enum(1, vec![V::Enum(k, vec![])]) };
+                finish(self, st, r)?;
+                return Ok(None);
+            }
             let mut outs = vec![];
             // Ordering: Less = -1, Equal = 0, Greater = 1 (variant indices 0,1,2); 3 = unordered (None)
             for k in 0u32..4 {
                 let mut s1 = st.clone();
+                s1.decided.push((t, k as u128));
                 let r = if k == 3 { V::Enum(0, vec![]) } else { V::Enum(1, vec![V::Enum(k, vec![])]) };
                 finish(self, &mut s1, r)?;
                 outs.push((k as u128, self.run_from(&mut s1, base)));
